@@ -473,6 +473,7 @@ def run(chk):
   fresh_names(chk, 'C07-R3')
   from rules.c02 import combine_disambiguation_total
   combine_disambiguation_total(chk, 'C07-R3')
+  K.fresh_combine_names(chk, 'C07-R3')
   chk.rule('C07-R1', 'aggregate UDFs return the same value for every arrival '
            'order of their rows (List element order, ANY_VALUE and ties of '
            'ArgMin/ArgMax excepted)', min_instances=5)
